@@ -26,7 +26,8 @@ fn gen_one(r: &mut Rng, _thorough: bool) -> String {
         let limit_us = *r.pick(&[0u64, 0, 1, 500, 9_999, 10_000, 25_000, 1_000_000]);
         let first = *r.pick(&["m0", "again", "again", "intr", "intr", "e111", "e110", "e114", "e11"]);
         let wait = *r.pick(&["full", "fail", "ev0", "ev1000", "ev20000000"]);
-        return format!("connect {blocking} {limit_us} 1 ; calls: {first} ; waits: {wait}");
+        let sock = if r.chance(1, 3) { 2 } else { 1 };
+        return format!("connect {blocking} {limit_us} {sock} ; calls: {first} ; waits: {wait}");
     }
     let class = r.below(4);
     let call = *r.pick(match class { 0 => CALLS_R_BUF, 1 => CALLS_W_BUF, 2 => CALLS_R_VEC, _ => CALLS_W_VEC });
@@ -193,6 +194,22 @@ pub fn exec(body: &str, emit: &mut dyn FnMut(&str)) {
     unsafe { libc::close(sv[0]); libc::close(sv[1]); }
 }
 
+/// a TCP socket on which a non-blocking connect to a closed loopback port has failed; the error is still pending
+unsafe fn refused_tcp() -> c_int {
+    let l = std::net::TcpListener::bind("127.0.0.1:0").expect("bind");
+    let port = l.local_addr().unwrap().port();
+    drop(l);
+    let fd = libc::socket(libc::AF_INET, libc::SOCK_STREAM | libc::SOCK_NONBLOCK, 0);
+    let mut a: libc::sockaddr_in = std::mem::zeroed();
+    a.sin_family = libc::AF_INET as u16;
+    a.sin_port = port.to_be();
+    a.sin_addr.s_addr = u32::from_ne_bytes([127, 0, 0, 1]);
+    let _ = libc::connect(fd, (&a as *const libc::sockaddr_in).cast(), std::mem::size_of::<libc::sockaddr_in>() as u32);
+    let mut p = libc::pollfd { fd, events: libc::POLLOUT, revents: 0 };
+    let _ = libc::poll(&mut p, 1, 1000);
+    fd
+}
+
 fn exec_one(body: &str, sv: [c_int; 2], emit: &mut dyn FnMut(&str)) {
     let parts: Vec<&str> = body.split(" ; ").collect();
     if parts.len() != 3 { emit("BADCASE"); return; }
@@ -206,7 +223,9 @@ fn exec_one(body: &str, sv: [c_int; 2], emit: &mut dyn FnMut(&str)) {
     let waits: Vec<String> = parts[2].trim_start_matches("waits:").trim().split(',').filter(|s| !s.is_empty()).map(String::from).collect();
     let is_read = CALLS_R_BUF.contains(&call) || CALLS_R_VEC.contains(&call);
     unsafe {
-        let fd = sv[0];
+        // `connect … 2`: a TCP socket whose connection attempt has already been refused (SO_ERROR is pending, no peer)
+        let refused = call == "connect" && head[3] == "2";
+        let fd = if refused { refused_tcp() } else { sv[0] };
         let tv = libc::timeval { tv_sec: limit_us / 1_000_000, tv_usec: limit_us % 1_000_000 };
         let which = if is_read { libc::SO_RCVTIMEO } else { libc::SO_SNDTIMEO };
         // through the hook, as an interposed process would (keeps the runtime's limit cache coherent)
